@@ -175,8 +175,8 @@ class Check:
     # ------------------------------------------------------------ triage
     def match_known(self, job, viol):
         for k in self.known:
-            if k.get('kind') != 'finding':
-                continue
+            if k.get('kind') != 'finding' or 'shapes' in k:
+                continue  # shape-keyed findings (C05) are matched by the check itself, never as a wildcard
             key = k['key']
             if 'job' in key and not re.search(key['job'], job['name']):
                 continue
